@@ -8,10 +8,15 @@ for sid in sys.argv[1:]:
     m = json.load(open(mp))
     r = subprocess.run([sys.executable, os.path.join(V, "tools", "try_seeded.py"), m["property"], os.path.join(V, "seeded", sid, "patch.diff")],
                        stdout=subprocess.PIPE, stderr=subprocess.STDOUT, text=True)
+    base = "HEAD"
+    if "patch does not apply" in r.stdout:   # /repo moved on (later fix commits touched the same file): use the base the change was confirmed on
+        base = m["repo_head"]
+        r = subprocess.run([sys.executable, os.path.join(V, "tools", "try_seeded.py"), m["property"], os.path.join(V, "seeded", sid, "patch.diff"), "--base", base],
+                           stdout=subprocess.PIPE, stderr=subprocess.STDOUT, text=True)
     verdict = ("caught-with-failing-input" if re.search(r"^VIOLATION \S+ replay=\S+\s*$", r.stdout, re.M) else
                ("caught-no-failing-input-found" if "no-failing-input-found" in r.stdout else ("missed" if r.returncode == 0 else "error")))
     m.setdefault("rechecks", []).append({"at": time.strftime("%Y-%m-%dT%H:%MZ", time.gmtime()), "verif_commit": subprocess.run(["git", "-C", V, "rev-parse", "--short", "HEAD"], capture_output=True, text=True).stdout.strip(),
-                                         "verdict": verdict, "output": r.stdout[-1500:]})
+                                         "verdict": verdict, "base": base, "output": r.stdout[-1500:]})
     m["final_verdict"] = "%s (first run: %s)" % (verdict, m["check"]["verdict"]) if verdict != m["check"]["verdict"] else verdict
     json.dump(m, open(mp, "w"), indent=1)
     print(sid, m["final_verdict"])
